@@ -270,6 +270,18 @@ class CostExec(SymExec):
                 num = num.args[0]
             if U(num) == U(e.right.args[0]):
                 return tagged('unit', e, var=U(num))
+        # ---- weights that are 1 in the root-mean-square: U / sqrt(mean(square(U))) - their squares sum to len(U) ------------------------------
+        if isinstance(e.op, ast.Div) and isinstance(e.right, ast.Call) and U(e.right.func) in ('np.sqrt', 'numpy.sqrt', 'math.sqrt') and len(e.right.args) == 1:
+            num = e.left
+            if isinstance(num, ast.Call) and U(num.func) in ('np.array', 'np.asarray') and num.args:
+                num = num.args[0]
+            inner = U(e.right.args[0]).replace(' ', '')
+            nm = U(num)
+            if inner in ('np.mean(np.square(%s))' % nm, 'np.mean(%s**2)' % nm, 'np.mean(np.array(%s)**2)' % nm, 'np.square(%s).mean()' % nm,
+                         '(%s**2).mean()' % nm):
+                t_ = tagged('unit', e, var=nm)
+                tag_of(t_, 'unit').sumsq = sym('len(%s)' % nm)
+                return t_
         # ---- fractions of a split, second spelling: X / np.linalg.norm(X, 1)  (non-negative weights: the L1 norm is the sum) ---------
         if isinstance(e.op, ast.Div) and isinstance(e.right, ast.Call) and U(e.right.func) in ('np.linalg.norm', 'numpy.linalg.norm') \
                 and len(e.right.args) == 2 and U(e.right.args[1]) == '1' and U(e.right.args[0]) == U(e.left):
@@ -706,6 +718,11 @@ class CostExec(SymExec):
                     v = self.value(a)
                     if tag_of(v, 'unit') is not None and isinstance(tn, ast.Name):
                         unit = tn.id
+                        ss_ = getattr(tag_of(v, 'unit'), 'sumsq', None)
+                        if ss_ is not None:
+                            if not hasattr(self.world, 'unit_sumsq'):
+                                self.world.unit_sumsq = {}
+                            self.world.unit_sumsq[tn.id] = ss_
             # a partition: for k in ...: split = [c for c in L if len(c) == k]; for c in split
             if isinstance(it, ast.Name) and it.id in self.defs and isinstance(self.defs[it.id], ast.ListComp):
                 lc = self.defs[it.id]
@@ -790,7 +807,12 @@ def sum_over_loops(cost, rel, world, notes):
             if not (r - A * Rat.sym(v) * Rat.sym(v)).iszero() or v in A.symbols():
                 return None, 'cost is not proportional to the square of the unit-norm weight `%s`' % unit
             total = Alg(A)
-            notes.append('sum over the unit-norm weights `%s`: sum w^2 = 1' % unit)
+            ss_ = getattr(world, 'unit_sumsq', {}).get(unit)
+            if ss_ is not None:
+                total = total * ss_
+                notes.append('sum over the weights `%s` normalised to a root-mean-square of 1: sum w^2 = %s' % (unit, ss_))
+            else:
+                notes.append('sum over the unit-norm weights `%s`: sum w^2 = 1' % unit)
         elif part is not None and i > 0:
             # inner loop over a partition class of L (by the outer loop variable): both loops together visit each element once
             total = total * sym('len(%s)' % part)
